@@ -42,7 +42,7 @@ def ser(p, plain=False):
         blk = f'block {int(p[1])} {int(p[2])} {p[3]} {ser(p[4], plain)}'
         # forms 2/3: the timeout object is created GAP time units before it is entered - for the
         # model that is simply a sleep before the block (the deadline counts from entry)
-        return f'seq sleep {GAP} {blk}' if p[5] >= 2 and not plain else blk
+        return f'seq sleep {GAP} {blk}' if p[5] in (2, 3) and not plain else blk
     if t == 'try':
         return f'try {len(p[1])} {" ".join(p[1])} {ser(p[2], plain)} {ser(p[3], plain)}'
     if t == 'group':
@@ -52,6 +52,23 @@ def ser(p, plain=False):
     if t == 'groupx':
         return 'groupx'        # outside the model's language: judged by the oracle only
     raise ValueError(p)
+
+
+def form4_blocks(p):
+    """the blocks of `p` (every occurrence) whose context manager is made by another task"""
+    t = p[0]
+    if t == 'seq':
+        yield from form4_blocks(p[1])
+        yield from form4_blocks(p[2])
+    elif t == 'try':
+        yield from form4_blocks(p[2])
+        yield from form4_blocks(p[3])
+    elif t == 'group':
+        yield from form4_blocks(p[2])
+    elif t == 'block':
+        if p[5] == 4:
+            yield p
+        yield from form4_blocks(p[4])
 
 
 def ser_plain(p):
@@ -76,7 +93,8 @@ def show(p):
     if t == 'block':
         name = ('ignore' if p[1] else 'timeout') + ('_after' if p[2] else '_at')
         form = {0: '', 1: ' [coroutine form]', 2: ' [created 2 earlier]',
-                3: ' [coroutine form, created 2 earlier]'}[p[5]]
+                3: ' [coroutine form, created 2 earlier]',
+                4: ' [context manager made by another task]'}[p[5]]
         return f'{name}({p[3]}){form}{{ {show(p[4])} }}'
     if t == 'try':
         return f'try{{ {show(p[2])} }} except {"|".join(p[1])} {{ {show(p[3])} }}'
@@ -177,7 +195,7 @@ def gen(r, d, tie_prone=False, cx=False):
             t = r.choice([2, 6, 10, 14, 18, 30, 0, -2]) if rel else \
                 r.choice([2, 6, 10, 14, 18, 30, 50, 0, -6])
         return ('block', r.random() < 0.4, rel, t, gen(r, d - 1, tie_prone, cx),
-                r.choice([0, 0, 0, 0, 1, 1, 2, 3]))
+                r.choice([0, 0, 0, 0, 1, 1, 2, 3, 4]))
     if k < 0.93:
         pool = ['T', 'O', 'U', 'C', 'X', 'C'] if cx else ['T', 'O', 'U']
         cs = sorted(set(r.sample(pool, r.randint(1, 2))))
@@ -259,7 +277,7 @@ def enum_shapes():
     for b in bodies + [('skip',)]:
         for d1 in (4, 8, 0, -2):
             for ig1 in (False, True):
-                for f1 in (0, 1):
+                for f1 in (0, 1, 4):
                     one = ('block', ig1, True, d1, b, f1)
                     out.append(one)
                     out.append(('seq', one, ('sleep', 4)))
@@ -275,6 +293,10 @@ def enum_shapes():
                             inner = ('try', ['T', 'U'], inner, ('sleep', 2))
                         body = ('seq', inner, ('sleep', 6))
                         out.append(('block', ig1, True, d1, body, 0))
+                        if catch == 0 and rel2:
+                            # both context managers made by another task than the one entering
+                            out.append(('block', ig1, True, d1,
+                                        ('seq', ('block', ig2, rel2, d2, b, 4), ('sleep', 6)), 4))
     for b in (('sleep', 6), ('sleep', 30)):
         for d1, d2, d3 in itertools.product((4, 10, 16), repeat=3):
             for ig in itertools.product((False, True), repeat=3):
@@ -380,10 +402,16 @@ class Impl:
             rec = {'ig': bool(ig), 'form': form, 'node': p, 'parents': stack, 'val': 'ok',
                    'kind': 'block'}
             inner = stack + (rec,)
-            if form in (0, 2):
+            if form in (0, 2, 4):
                 fn = (c.ignore_after if ig else c.timeout_after) if rel else \
                     (c.ignore_at if ig else c.timeout_at)
-                cm = fn(tt)
+                if form == 4:
+                    # the context manager was made by ANOTHER task before the program started
+                    # (`run`): the block belongs to the task that enters it, not to its maker
+                    made = getattr(self, '_premade', {}).get(id(p))
+                    cm = made.pop() if made else fn(tt)
+                else:
+                    cm = fn(tt)
                 if form == 2:
                     await c.sleep(GAP)      # created now, entered later
                 now = int(loop.time())
@@ -636,6 +664,18 @@ class Impl:
                 if exc is not None:
                     raise exc
 
+            # form 4: every such block's context manager is made now, by a task of its own that
+            # is over before the program task starts (no virtual time passes)
+            self._premade = {}
+            todo = [b for b in form4_blocks(p)]
+            if todo:
+                async def maker():
+                    for b in todo:
+                        fn = (c.ignore_after if b[1] else c.timeout_after) if b[2] else \
+                            (c.ignore_at if b[1] else c.timeout_at)
+                        self._premade.setdefault(id(b), []).append(fn(b[3]))
+                c = self.curio
+                await asyncio.ensure_future(maker())
             task = asyncio.ensure_future(program())
             if cancel is not None:
                 def do_cancel():
